@@ -1,9 +1,9 @@
 package main
 
 import (
-	"go/token"
-	"go/ast"
 	"fmt"
+	"go/ast"
+	"go/token"
 	"sort"
 	"strings"
 
